@@ -20,13 +20,21 @@ package table
 
 // Every key added to the table contributes the hash of its user key.
 //@ func (*Builder).addHelper
-//@   props C19
+//@   props C19 C18 C11
 //@   light
 //@   requires len(key) >= 8
 //@   assert[key-hash] before call append#1 : arg1[0] == ret(Hash#1)
 //@   assert[hash-of-userkey] before call Hash#1 : arg0 == ret(ParseKey#1)
 //@   assert[userkey-of-key] before call ParseKey#1 : arg0 == key
 //@   assert[every-key-hashed] before return : called(append#1) && called(Hash#1)
+//@   assert[max-version-tracked] before call Encode#1 : b.maxVersion >= ret(ParseTs#1) && called(ParseTs#1)
+//@   assert[first-key-is-base-key] before call append#2 : len(b.curBlock.baseKey) == 0 && len(arg0) == 0
+//@   assert[diff-against-base-key] before call keyDiff : arg0 == b && arg1 == key && len(b.curBlock.baseKey) != 0
+//@   assert[header-describes-key] before call Encode#1 : int(h.overlap) + int(h.diff) == len(key) && int(h.diff) == len(diffKey)
+//@   assert[entry-offset-recorded] before call append#3 : len(arg1) == 1 && arg1[0] == uint32(b.curBlock.end)
+//@   assert[header-then-diff] before call append#5 : called(append#4) && arg1 == diffKey
+//@   assert[room-for-encoded-value] before call allocate : arg1 == int(ret(EncodedSize#1))
+//@   assert[value-encoded-into-block] before call Encode#2 : arg1 == ret(allocate#1)
 //@   note C19: light mode: only the hash appended to keyHashes is checked here; block layout is C18
 
 // The filter is built from all collected hashes.
@@ -143,4 +151,61 @@ package table
 //@   requires t != nil && t.opt != nil
 //@   ensures result <==> t.opt.DataKey != nil
 //@   assigns nothing
+
+// ---- block layout: key prefix compression (C18, function level) ----
+
+//@ spec le16(s []byte, off int) uint16 = uint16(s[off]) | uint16(s[off+1])<<8
+
+// The 4-byte entry header: overlap then diff, two bytes each (unsafe copy of the struct:
+// little endian, gc layout -- assumed), and back.
+//@ func (header).Encode
+//@   props C18
+//@   ensures[size] len(result) == 4
+//@   ensures[layout] le16(result, 0) == h.overlap && le16(result, 2) == h.diff
+//@   assigns nothing
+
+//@ func (*header).Decode
+//@   props C18
+//@   requires h != nil && len(buf) >= 4
+//@   ensures[layout] h.overlap == old(le16(buf, 0)) && h.diff == old(le16(buf, 2))
+//@   assigns h.overlap, h.diff
+
+// keyDiff returns the suffix of the key after its longest common prefix with the block's base
+// key.
+//@ func (*Builder).keyDiff
+//@   props C18
+//@   requires b != nil && b.curBlock != nil
+//@   ensures[suffix] len(result) <= len(newKey) && (len(result) > 0 ==> sameRegion(result, newKey)) && (forall j int :: 0 <= j && j < len(result) ==> result[j] == newKey[len(newKey) - len(result) + j])
+//@   ensures[common-prefix] len(newKey) - len(result) <= len(b.curBlock.baseKey) && (forall j int :: 0 <= j && j < len(newKey) - len(result) ==> newKey[j] == b.curBlock.baseKey[j])
+//@   ensures[longest] len(result) > 0 && len(newKey) - len(result) < len(b.curBlock.baseKey) ==> newKey[len(newKey) - len(result)] != b.curBlock.baseKey[len(newKey) - len(result)]
+//@   assigns nothing
+//@   loop 1 invariant[prefix] 0 <= i && i <= len(newKey) && i <= len(b.curBlock.baseKey) && (forall j int :: 0 <= j && j < i ==> newKey[j] == b.curBlock.baseKey[j])
+//@   loop 1 decreases len(newKey) - i
+
+// blockIterator.setIdx rebuilds the key of entry i as the first h.overlap bytes of the base key
+// followed by the stored difference, and takes the rest of the entry as its value; an index out
+// of range is io.EOF.
+//@ func (*blockIterator).setIdx
+//@   props C18
+//@   light
+//@   assert[header-of-entry] before call Decode#2 : arg1 == entryData
+//@   assert[base-key-from-first-entry] before call Decode#1 : arg1 == itr.data && len(itr.baseKey) == 0
+//@   assert[overlap-from-base-key] before call append#1 : h.overlap > itr.prevOverlap && len(arg0) == int(itr.prevOverlap) && len(arg1) == int(h.overlap) - int(itr.prevOverlap) && sameRegion(arg1, itr.baseKey)
+//@   assert[diff-after-overlap] before call append#2 : len(arg0) == int(h.overlap) && arg1 == diffKey && (h.diff <= 65000 ==> len(diffKey) == int(h.diff)) && itr.prevOverlap == h.overlap
+//@   assert[out-of-range-is-eof] before return#1 : itr.err == io.EOF && (i >= len(itr.entryOffsets) || i < 0)
+
+// allocate hands out exactly `need` bytes at the end of the current block's data, growing the
+// buffer (and copying what is there) when needed; append copies all of its argument there.
+//@ func (*Builder).allocate
+//@   props C18
+//@   light
+//@   ensures[exact-size] need >= 0 && need <= 1<<40 && old(b.curBlock.end) >= 0 && old(b.curBlock.end) <= 1<<40 ==> len(result) == need && b.curBlock.end == old(b.curBlock.end) + need
+//@   assert[grown-enough] before call Allocate : arg1 >= bb.end + need
+//@   assert[old-content-kept] before call copy : arg1 == bb.data && arg0 == ret(Allocate#1)
+
+//@ func (*Builder).append
+//@   props C18
+//@   light
+//@   assert[all-bytes-copied] before call copy : arg1 == data && arg0 == ret(allocate#1)
+//@   assert[room-for-all] before call allocate : arg1 == len(data)
 
